@@ -66,3 +66,38 @@ class FloatAlg:
 
 
 FA = FloatAlg()
+
+
+class FracAlg:
+    """EXACT interpretation of the rational part of the spec algebra (+ - * / min max comparisons) on fractions.Fraction: the value of a closed form
+    as a real number at the given doubles, free of the rounding of a floating-point evaluation of the oracle itself.  None = undefined (x/0)."""
+    name = "exact rational"
+
+    def c(self, v):
+        from fractions import Fraction
+        return None if v is None or v != v else Fraction(float(v))
+
+    def _2(self, a, b, f):
+        return None if a is None or b is None else f(a, b)
+
+    def add(self, a, b): return self._2(a, b, lambda x, y: x + y)
+    def sub(self, a, b): return self._2(a, b, lambda x, y: x - y)
+    def mul(self, a, b): return self._2(a, b, lambda x, y: x * y)
+    def div(self, a, b): return self._2(a, b, lambda x, y: None if y == 0 else x / y)
+    def neg(self, a): return None if a is None else -a
+    def square(self, a): return None if a is None else a * a
+    def minimum(self, a, b): return self._2(a, b, min)
+    def maximum(self, a, b): return self._2(a, b, max)
+    def lt(self, a, b): return bool(a < b)
+    def le(self, a, b): return bool(a <= b)
+    def gt(self, a, b): return bool(a > b)
+    def ge(self, a, b): return bool(a >= b)
+    def eq(self, a, b): return bool(a == b)
+    def ne(self, a, b): return bool(a != b)
+    def and_(self, *bs): return all(bs)
+    def or_(self, *bs): return any(bs)
+    def not_(self, b): return not b
+    def ite(self, c, a, b): return a if c else b
+
+
+QA = FracAlg()
